@@ -1,5 +1,6 @@
 // C13 – JSON Patch application follows RFC 6902 and is safe on arbitrary patch documents.
 #include "common.hpp"
+#include <functional>
 #include "treegen.hpp"
 #include "rfc6902.hpp"
 #include <cerrno>
@@ -446,6 +447,36 @@ static void check(Ctx &ctx, const Val &doc, const Val &patch, bool copy_form, ui
 	// independence: scribble over the whole result, the patch (and the copy_from source) must not change
 	if (rc == 0 && base)
 	{
+		// no node may sit at two locations of the result (a "copy" that shares its source would change with it)
+		{
+			std::set<json_object *> seen;
+			std::function<json_object *(json_object *)> dup = [&](json_object *n) -> json_object * {
+				if (!n)
+					return nullptr;
+				if (!seen.insert(n).second)
+					return n;
+				if (json_object_get_type(n) == json_type_array)
+					for (size_t i = 0; i < json_object_array_length(n); i++)
+						if (json_object *d = dup(json_object_array_get_idx(n, i)))
+							return d;
+				if (json_object_get_type(n) == json_type_object)
+				{
+					json_object_object_foreach(n, k, v)
+					{
+						(void)k;
+						if (json_object *d = dup(v))
+							return d;
+					}
+				}
+				return nullptr;
+			};
+			if (json_object *d = dup(base))
+			{
+				std::string what = json_object_to_json_string(d);
+				cleanup();
+				ctx.fail("value-shared-within-result", "one node (" + quote(what, 60) + ") sits at two locations of the patched document: changing one location would change the other | " + desc);
+			}
+		}
 		scribble(base, (int)(salt & 3));
 		patch_after = dump(jpatch);
 		if (!same_val(patch_before, patch_after, why, DBL_BITS))
